@@ -3,6 +3,8 @@ package checks
 import (
 	"errors"
 	"fmt"
+	"strconv"
+	"strings"
 	"sync"
 	"sync/atomic"
 
@@ -34,6 +36,9 @@ type injPlan struct {
 }
 
 var inj = &injPlan{}
+
+// injEpoch numbers the cases of this process (see vfTag)
+var injEpoch atomic.Int64
 
 var errInjected = errors.New("injected failure (vf_fail)")
 
@@ -98,18 +103,32 @@ func vfTag(q *genql.Query, cur genql.Map, fo *genql.FunctionOptions, args []any)
 		return nil, fmt.Errorf("vf_tag expects (tag, x)")
 	}
 	tag := fmt.Sprint(args[0])
+	// tags carry the epoch of the case that rendered them ("g1#42"): a fire-and-forget call that
+	// outlives its case must not be attributed to the next one
+	if i := strings.IndexByte(tag, '#'); i >= 0 {
+		stale := tag[i+1:] != strconv.FormatInt(injEpoch.Load(), 10)
+		tag = tag[:i]
+		if stale {
+			return vfValue(tag, args[1]), nil
+		}
+	}
 	inj.mu.Lock()
 	inj.tagCalls[tag]++
 	inj.tagArgs[tag] = append(inj.tagArgs[tag], args[1])
 	g := inj.gate
 	inj.mu.Unlock()
-	if g != nil {
-		g.wait(tag)
+	rank := -1
+	if g != nil && len(tag) > 0 && tag[0] == 'g' {
+		// only tags starting with 'g' (calls under ASYNC / SPINASYNC / SPIN) go through the gate
+		rank = g.wait(tag)
 	}
 	v := vfValue(tag, args[1])
 	inj.mu.Lock()
 	inj.tagDone[tag]++
 	inj.mu.Unlock()
+	if rank >= 0 {
+		g.done(rank)
+	}
 	return v, nil
 }
 
@@ -132,46 +151,87 @@ func vfImm(q *genql.Query, cur genql.Map, fo *genql.FunctionOptions, args []any)
 	return args[0], nil
 }
 
-// gateCtl lets the harness own the completion order of vf_tag calls: call i (in arrival order) is
-// released when its turn in the drawn permutation comes, once all expected calls have arrived, or
-// when the engine has gone quiescent (no arrival for a while), so that sequential implementations,
-// which never have more than one call in flight, pass as well.
+// gateCtl lets the harness own the completion order of vf_tag calls. Calls are numbered in arrival
+// order; the i-th arriving call has release rank order[i]. Once all expected calls have arrived, rank
+// 0 may proceed; when a call finishes, the next rank may proceed - so the completion order is
+// exactly the drawn permutation whenever the engine really runs the calls concurrently. A ticker
+// (pump) opens the next rank whenever nothing has moved for a while, so an engine that runs the
+// calls one after the other (equally correct) is never deadlocked by the gate.
 type gateCtl struct {
 	mu       sync.Mutex
 	cond     *sync.Cond
 	expected int
-	order    []int // release rank of the i-th arriving call
+	order    []int
 	arrived  int
-	released int // number of release ranks opened so far
+	finished int
+	allowed  int // ranks < allowed may proceed
 	open     bool
+	waiting  map[int]bool // ranks currently blocked
+	moves    int          // arrivals + completions, for the pump
+	Finish   []int        // ranks in completion order (for the evidence labels)
 }
 
 func newGate(expected int, order []int) *gateCtl {
-	g := &gateCtl{expected: expected, order: order}
+	g := &gateCtl{expected: expected, order: order, waiting: map[int]bool{}}
 	g.cond = sync.NewCond(&g.mu)
 	return g
 }
 
-func (g *gateCtl) wait(tag string) {
+func (g *gateCtl) wait(tag string) (rank int) {
 	g.mu.Lock()
 	idx := g.arrived
 	g.arrived++
-	g.cond.Broadcast()
-	rank := idx
+	g.moves++
+	rank = idx
 	if idx < len(g.order) {
 		rank = g.order[idx]
 	}
-	for !g.open && !(g.arrived >= g.expected && g.released >= rank) {
+	if g.arrived >= g.expected && g.allowed == 0 {
+		g.allowed = 1
+	}
+	g.waiting[rank] = true
+	g.cond.Broadcast()
+	for !g.open && rank >= g.allowed {
 		g.cond.Wait()
 	}
-	if g.released <= rank {
-		g.released = rank + 1
+	delete(g.waiting, rank)
+	g.mu.Unlock()
+	return rank
+}
+
+func (g *gateCtl) done(rank int) {
+	g.mu.Lock()
+	g.finished++
+	g.moves++
+	g.Finish = append(g.Finish, rank)
+	if g.allowed > 0 && rank+1 >= g.allowed {
+		g.allowed = rank + 2
 	}
+	// skip ranks that nobody holds (never arrived): the lowest waiting rank must be allowed
 	g.cond.Broadcast()
 	g.mu.Unlock()
 }
 
-// openAll releases every waiting call (used by the quiescence watchdog).
+// pump is called periodically by the harness while Exec runs: when nothing moved since the last
+// call and somebody is blocked, the lowest blocked rank is let through.
+func (g *gateCtl) pump(lastMoves int) int {
+	g.mu.Lock()
+	defer g.mu.Unlock()
+	if g.moves == lastMoves && len(g.waiting) > 0 {
+		lowest := -1
+		for r := range g.waiting {
+			if lowest < 0 || r < lowest {
+				lowest = r
+			}
+		}
+		if lowest >= g.allowed {
+			g.allowed = lowest + 1
+			g.cond.Broadcast()
+		}
+	}
+	return g.moves
+}
+
 func (g *gateCtl) openAll() {
 	g.mu.Lock()
 	g.open = true
@@ -179,10 +239,16 @@ func (g *gateCtl) openAll() {
 	g.mu.Unlock()
 }
 
-func (g *gateCtl) snapshot() (arrived int) {
+func (g *gateCtl) finishOrder() []int {
 	g.mu.Lock()
 	defer g.mu.Unlock()
-	return g.arrived
+	return append([]int{}, g.Finish...)
+}
+
+func (g *gateCtl) counts() (arrived, finished int) {
+	g.mu.Lock()
+	defer g.mu.Unlock()
+	return g.arrived, g.finished
 }
 
 func init() {
